@@ -1,14 +1,18 @@
 (* C18 correspondence: case type, model observation, executable statement (written against Pipe.eval /
    Pipe.needed, never against Lazy.lazy_run / Lazy.ev). *)
-From Verif Require Export Base.Prelude Base.StrOrd Base.Graph Model.Pipe Model.Lazy Corr.PipeObs.
+From Verif Require Export Base.Prelude Base.StrOrd Base.Graph Model.Pipe Model.SymNone Model.Lazy Model.LazySeq Corr.PipeObs.
 
 Inductive case :=
-| CLazy (p : pipeline) (o : str) (kw : alist) (full : bool) (dag : bool).
+| CLazy (p : pipeline) (o : str) (kw : alist) (full : bool) (dag : bool)
     (* Pipeline(p, lazy=True).run(o, full_output=full, kwargs=kw), inside `with construct_dag()` when dag;
        then: call log, evaluate_lazy(result), log, evaluate_lazy(result) again, log, task graph *)
+| CSeq (p : pipeline) (dag : bool) (rs : list request).
+    (* ONE Pipeline(p, lazy=True) object; all requests (output, keywords, full_output, evaluate-right-away) in order,
+       inside one `with construct_dag()` block when dag; then evaluate_lazy of every returned object.
+       Functions with cached=true use the pipeline's LRU cache; inside construct_dag() the task-graph cache is used. *)
 
-Definition body := Sym.body.
-Definition pick := Sym.pick.
+Definition body := SymN.body.
+Definition pick := SymN.pick.
 
 Definition sx_elog (l : list (nat * call)) : sx := sx_strs (map (fun e => Sym.show_call (snd e)) l).
 
@@ -37,6 +41,21 @@ Definition run (c : case) : sx :=
             SL [ SS (s "ok"); sx_elog (elog e0); v1; sx_elog (elog e1); v2; sx_elog (elog e2);
                  if dag then sx_nat_edges (lheap st) (ldag st) else SNone ]
         end
+      else bad_case
+  | CSeq p dag rs =>
+      if wf_pipelineb p then
+        let '(ps1, outcomes) := run_requests body pick p dag (pinit) rs in
+        let '(ps2, values) := eval_all body pick ps1 outcomes in
+        SL [ SL (map (fun r => match r with Ok _ => SS (s "ok") | Err e => SErr e end) outcomes);
+             sx_elog (plog ps1);
+             SL (map (fun v => match v with
+                               | None => SNone
+                               | Some (Ok (inl x)) => SL [SS (s "ok"); SS x]
+                               | Some (Ok (inr d)) => SL [SS (s "ok"); sx_sorted_dict d]
+                               | Some (Err e) => SErr e
+                               end) values);
+             sx_elog (plog ps2);
+             if dag then sx_nat_edges (pheap ps2) (pdag ps2) else SNone ]
       else bad_case
   end.
 
@@ -123,8 +142,77 @@ Definition lazy_ok (p : pipeline) (o : str) (kw : alist) (full dag : bool) (obs 
   | _ => false
   end.
 
+(* ---- sequences of requests ----
+   per request: a request with a missing argument is rejected; a request all of whose keywords are read is
+   accepted and its deferred object evaluates to the eager result (for full_output: every supplied keyword and
+   every output of a needed function); nothing is invoked except by evaluate(); every call that happens belongs to
+   the evaluation of some accepted request, the calls of every accepted request all happen, and no call happens
+   more often than there are accepted requests that need it; the task graph is acyclic and has a node for every
+   needed function of every accepted request. *)
+Definition req_expected (p : pipeline) (r : request) : option (list str) :=
+  let '(o, kw, _, _) := r in optM (call_string p kw) (needed_top p kw o).
+
+Definition req_status_ok (p : pipeline) (r : request) (st : sx) (v : sx) : bool :=
+  let '(o, kw, full, _) := r in
+  if ahas kw o || negb (is_output p o) then true
+  else match eval_top body pick p kw o with
+       | Err _ => sx_is_err st
+       | Ok _ =>
+           if sx_is_err st then negb (subset_str (akeys kw) (kw_names_read p kw o))
+           else value_ok p kw o full v
+       end.
+
+Fixpoint zip3_forall {A B C} (f : A -> B -> C -> bool) (a : list A) (b : list B) (c : list C) : bool :=
+  match a, b, c with
+  | [], [], [] => true
+  | x :: a', y :: b', z :: c' => f x y z && zip3_forall f a' b' c'
+  | _, _, _ => false
+  end.
+
+Definition count_str (x : str) (l : list str) : nat := length (filter (str_eqb x) l).
+Fixpoint unary (n : nat) : str := match n with O => [] | S k => "1"%char :: unary k end.
+
+Definition seq_ok (p : pipeline) (dag : bool) (rs : list request) (obs : sx) : bool :=
+  match obs with
+  | SL [SL sts; lg0; SL vals; lg1; g] =>
+      match un_strs lg0, un_strs lg1 with
+      | Some l0, Some l1 =>
+          let accepted := map fst (filter (fun rs => negb (sx_is_err (snd rs))) (combine rs sts)) in
+          let exp_all := map (fun r => match req_expected p r with Some l => l | None => [] end) accepted in
+          let exp_now := map (fun r => match req_expected p r with Some l => l | None => [] end)
+                             (filter (fun r => snd r) accepted) in
+          (* a request that is rejected only after its nodes were built (surplus keyword) may leave cached nodes
+             behind that a later request legitimately reuses: its calls count as possible, not as required *)
+          let exp_may := map (fun r => match req_expected p r with Some l => l | None => [] end) rs in
+          zip3_forall (req_status_ok p) rs sts vals
+          && forallb (fun c => existsb (mem_str c) exp_now) l0          (* nothing before an evaluate() *)
+          && forallb (fun c => existsb (mem_str c) exp_may) l1
+          && forallb (fun e => subset_str e l1) exp_all
+          && forallb (fun c => count_str c l1 <=? length (filter (mem_str c) exp_may)) l1
+          && (if dag then
+                match g with
+                | SL [SL labs; SL es] =>
+                    match optM un_str labs,
+                          optM (fun e => match e with SL [SI a; SI b] => Some (Z.to_nat a, Z.to_nat b) | _ => None end) es with
+                    | Some labels, Some edges =>
+                        acyclicb {| nodes := map unary (seq 0 (length labels));
+                                    edges := map (fun e => (unary (fst e), unary (snd e))) edges |}
+                        && forallb (fun e => (fst e <? length labels) && (snd e <? length labels)) edges
+                        && forallb (fun r => let '(o, kw, _, _) := r in
+                                             forallb (fun f => mem_str (fname f) labels) (needed_top p kw o)) accepted
+                    | _, _ => false
+                    end
+                | _ => false
+                end
+              else true)
+      | _, _ => false
+      end
+  | _ => false
+  end.
+
 Definition spec_ok (c : case) (obs : sx) : bool :=
   match c with
+  | CSeq p dag rs => if wf_pipelineb p then seq_ok p dag rs obs else true
   | CLazy p o kw full dag =>
       if negb (wf_pipelineb p) then true
       else if ahas kw o || negb (is_output p o) then true
